@@ -213,13 +213,22 @@ func (c *ctx) checkRejected(opname, why, line string) {
 }
 
 func literalForms(v uint64, rng interface{ IntN(int) int }) string {
-	switch rng.IntN(5) {
+	switch rng.IntN(9) {
 	case 0:
 		return "0x" + strconv.FormatUint(v, 16)
 	case 1:
 		return "0b" + strconv.FormatUint(v, 2)
 	case 2:
 		return "0d" + strconv.FormatUint(v, 10)
+	case 3:
+		// a decimal literal with leading zeros is still decimal (017 is seventeen)
+		return "0" + strconv.FormatUint(v, 10)
+	case 4:
+		return "00" + strconv.FormatUint(v, 10)
+	case 5:
+		return "0x" + strings.ToUpper(strconv.FormatUint(v, 16))
+	case 6:
+		return "0b0" + strconv.FormatUint(v, 2)
 	}
 	return strconv.FormatUint(v, 10)
 }
